@@ -82,6 +82,18 @@ pint.__name__ = "int"
 pint.__qualname__ = "int"
 
 
+def sym_not(c):
+    t = type(c)
+    if t is SymBool:
+        import z3 as _z3
+
+        return SymBool(_z3.Not(c.t))
+    if t is SymInt:
+        r = c == 0
+        return r
+    return not c
+
+
 def lazy_ite(c, fa, fb):
     t = type(c)
     if t is not SymBool and t is not SymInt:
@@ -144,6 +156,9 @@ class _Rewriter(ast.NodeTransformer):
     def visit_IfExp(self, node):
         self.generic_visit(node)
         if self.depth > 0 and _pure(node.body) and _pure(node.orelse):
+            # ``A if not C else B``: keep the negation symbolic instead of forcing bool(C)
+            if isinstance(node.test, ast.UnaryOp) and isinstance(node.test.op, ast.Not):
+                node.test = ast.Call(func=ast.Name(id="__pysym_not__", ctx=ast.Load()), args=[node.test.operand], keywords=[])
             rewrites["ifexp"] += 1
             return ast.copy_location(_ite_call(node.test, node.body, node.orelse), node)
         return node
@@ -232,7 +247,7 @@ class _Rewriter(ast.NodeTransformer):
 
 
 _PRELUDE = (
-    "from engines.pysym.hook import pint as int, pbytearray as bytearray, lazy_ite as __pysym_lazy_ite__\n"
+    "from engines.pysym.hook import pint as int, pbytearray as bytearray, lazy_ite as __pysym_lazy_ite__, sym_not as __pysym_not__\n"
 )
 
 
